@@ -17,6 +17,7 @@ import (
 	"strings"
 	"sync"
 	"sync/atomic"
+	"syscall"
 	"time"
 
 	"github.com/pinealctx/neptune/stcp"
@@ -56,6 +57,10 @@ type SessionSpec struct {
 	Concurrent bool     `json:"concurrent"`  // issue the events from separate goroutines at once
 	LateSends  []int    `json:"late_sends"`  // sends attempted after the events (must be refused or ignored, never corrupt)
 	OwnHandler bool     `json:"own_handler"` // the session gets its own handler through UpdateHandler
+	// Bulk > 0: that many further 64 KiB payloads are queued (more than socket buffers take at once), and the
+	// reading peer uses a small receive buffer and starts reading PeerDelayMs late
+	Bulk        int `json:"bulk,omitempty"`
+	PeerDelayMs int `json:"peer_delay_ms,omitempty"`
 }
 
 type CaseSess struct {
@@ -90,6 +95,10 @@ func GenSess(t *rapid.T) CaseSess {
 		s.Events = rapid.SampledFrom([][]string{{"local-close"}, {"local-close"}, {"peer-close"}, {"local-close", "peer-close"}, {"peer-close", "local-close"}, {"local-close", "local-close"}, {}}).Draw(t, "events")
 		s.Concurrent = rapid.Bool().Draw(t, "concurrent")
 		s.OwnHandler = rapid.IntRange(0, 3).Draw(t, "ownhandler") == 0
+		if rapid.IntRange(0, 5).Draw(t, "bulk") == 0 {
+			s.Bulk = rapid.SampledFrom([]int{16, 64}).Draw(t, "nbulk")
+			s.PeerDelayMs = rapid.SampledFrom([]int{0, 20, 60}).Draw(t, "peerdelay")
+		}
 		for j, k := 0, rapid.SampledFrom([]int{0, 0, 1, 2}).Draw(t, "nlate"); j < k; j++ {
 			s.LateSends = append(s.LateSends, rapid.SampledFrom([]int{1, 64}).Draw(t, "latesize"))
 		}
@@ -115,19 +124,20 @@ type handler struct {
 }
 
 type sessRun struct {
-	spec     SessionSpec
-	idx      int
-	sess     *stcp.Session
-	conn     *countingConn
-	peer     net.Conn
-	exits    atomic.Int32
-	exited   chan struct{}
-	invoked  atomic.Int32
-	accepted [][]byte // payloads whose Send returned nil before the events
-	peerGot  bytes.Buffer
-	peerErr  error
-	peerDone chan struct{}
-	ownErr   error
+	spec         SessionSpec
+	idx          int
+	sess         *stcp.Session
+	conn         *countingConn
+	peer         net.Conn
+	exits        atomic.Int32
+	exited       chan struct{}
+	invoked      atomic.Int32
+	accepted     [][]byte // payloads whose Send returned nil before the events
+	peerGot      bytes.Buffer
+	peerErr      error
+	peerWriteErr error
+	peerDone     chan struct{}
+	ownErr       error
 }
 
 func (h *handler) get(s *stcp.Session) *sessRun {
@@ -169,6 +179,30 @@ type ownHandler struct{ h *handler }
 func (o *ownHandler) Read(s *stcp.Session) error { return o.h.Read(s) }
 func (o *ownHandler) OnExit(s *stcp.Session)     { o.h.OnExit(s) }
 
+// connClosed reports whether the session closed its connection: counted on the wrapper for net.Pipe; for TCP
+// seen from the peer (its reads end with EOF or an error once the server side is closed).
+func connClosed(transport string, r *sessRun) bool {
+	if transport != "tcp" {
+		return r.conn.closes.Load() > 0
+	}
+	if r.spec.PeerReads {
+		select {
+		case <-r.peerDone:
+			return true
+		default:
+			return false
+		}
+	}
+	// a peer that never reads: drain now, with a short deadline per attempt
+	_ = r.peer.SetReadDeadline(time.Now().Add(20 * time.Millisecond))
+	_, err := io.Copy(io.Discard, r.peer)
+	var ne net.Error
+	if errors.As(err, &ne) && ne.Timeout() {
+		return false
+	}
+	return true // EOF (nil from io.Copy), reset, or closed
+}
+
 func payload(sess, i, size int) []byte {
 	b := make([]byte, size)
 	for k := range b {
@@ -177,7 +211,7 @@ func payload(sess, i, size int) []byte {
 	return b
 }
 
-func connPair(transport string) (server, client net.Conn, err error) {
+func connPair(transport string, smallRcvBuf bool) (server, client net.Conn, err error) {
 	if transport == "pipe" {
 		a, b := net.Pipe()
 		return a, b, nil
@@ -193,7 +227,15 @@ func connPair(transport string) (server, client net.Conn, err error) {
 	}
 	ch := make(chan acc, 1)
 	go func() { c, err := ln.Accept(); ch <- acc{c, err} }()
-	client, err = net.DialTimeout("tcp", ln.Addr().String(), 5*time.Second)
+	d := net.Dialer{Timeout: 5 * time.Second}
+	if smallRcvBuf {
+		// a small receive buffer set before the handshake keeps the advertised window small, so that
+		// bulk data really waits in the sender's socket buffer
+		d.Control = func(network, address string, rc syscall.RawConn) error {
+			return rc.Control(func(fd uintptr) { _ = syscall.SetsockoptInt(int(fd), syscall.SOL_SOCKET, syscall.SO_RCVBUF, 16<<10) })
+		}
+	}
+	client, err = d.Dial("tcp", ln.Addr().String())
 	if err != nil {
 		return nil, nil, err
 	}
@@ -299,13 +341,19 @@ func ExecSess(c CaseSess) *vkit.Result {
 			res.Skip("malformed-session")
 			return res
 		}
-		srv, cli, err := connPair(c.Transport)
+		srv, cli, err := connPair(c.Transport, spec.Bulk > 0)
 		if err != nil {
 			vkit.Infra("cannot create a %s connection pair: %v", c.Transport, err)
 		}
 		r := &sessRun{spec: spec, idx: i, conn: &countingConn{Conn: srv}, peer: cli, exited: make(chan struct{}), peerDone: make(chan struct{}),
 			ownErr: fmt.Errorf("handler error of session %d", i)}
-		r.sess = stcp.NewSession(mgr, r.conn)
+		if c.Transport == "tcp" {
+			// the session gets the real *net.TCPConn (code that type-asserts the connection must see it);
+			// that it was closed is then observed from the peer's side
+			r.sess = stcp.NewSession(mgr, srv)
+		} else {
+			r.sess = stcp.NewSession(mgr, r.conn)
+		}
 		if spec.OwnHandler {
 			r.sess.UpdateHandler(&ownHandler{h})
 			res.Class("own-handler")
@@ -330,6 +378,20 @@ func ExecSess(c CaseSess) *vkit.Result {
 		}
 	}
 	for _, r := range runs {
+		if r.spec.Bulk < 0 || r.spec.Bulk > 256 || r.spec.PeerDelayMs < 0 || r.spec.PeerDelayMs > 1000 {
+			continue
+		}
+		for j := 0; j < r.spec.Bulk; j++ {
+			p := payload(r.idx, 1000+j, 64<<10)
+			if err := r.sess.Send(p); err == nil {
+				r.accepted = append(r.accepted, p)
+			}
+		}
+		if r.spec.Bulk > 0 {
+			res.Class("bulk-sends")
+		}
+	}
+	for _, r := range runs {
 		r.sess.Start()
 	}
 	// (a session may already have ended by now, e.g. a handler failing at once: only the upper bound is certain)
@@ -343,10 +405,14 @@ func ExecSess(c CaseSess) *vkit.Result {
 			defer close(r.peerDone)
 			for k := 0; k < r.spec.PeerWrites; k++ {
 				if _, err := r.peer.Write([]byte{byte(k)}); err != nil {
+					r.peerWriteErr = err // (a reset reported to a write is not reported to the next read again)
 					break
 				}
 			}
 			if r.spec.PeerReads {
+				if r.spec.PeerDelayMs > 0 && r.spec.PeerDelayMs <= 1000 {
+					time.Sleep(time.Duration(r.spec.PeerDelayMs) * time.Millisecond)
+				}
 				_, r.peerErr = io.Copy(&r.peerGot, r.peer)
 			}
 		}()
@@ -411,7 +477,7 @@ func ExecSess(c CaseSess) *vkit.Result {
 			}
 		}
 		e.handlerFail = r.spec.FailAt > 0 && r.spec.PeerWrites >= r.spec.FailAt-1
-		validBeforeInvalid, validSends := 0, 0
+		validBeforeInvalid, validSends := 0, r.spec.Bulk
 		for _, sz := range r.spec.Sends {
 			if sz == 0 {
 				if !e.invalid {
@@ -488,7 +554,7 @@ func ExecSess(c CaseSess) *vkit.Result {
 	if !waitFor(func() bool { return len(sessionGoroutines()) == 0 }, patience) {
 		closed := true
 		for _, r := range runs {
-			if r.conn.closes.Load() == 0 {
+			if !connClosed(c.Transport, r) {
 				closed = false
 			}
 		}
@@ -506,7 +572,7 @@ func ExecSess(c CaseSess) *vkit.Result {
 		if n := r.exits.Load(); n != 1 {
 			return res.Failf("exit-callback-count", "session %d (%+v): OnExit ran %d times", r.idx, r.spec, n)
 		}
-		if n := r.conn.closes.Load(); n < 1 {
+		if !waitFor(func() bool { return connClosed(c.Transport, r) }, patience) {
 			return res.Failf("conn-not-closed", "session %d (%+v): the session ended but never closed its connection", r.idx, r.spec)
 		}
 	}
@@ -532,8 +598,13 @@ func ExecSess(c CaseSess) *vkit.Result {
 		}
 		if e.flush {
 			res.Class("flush-clause-applies")
+			if !bytes.Equal(got, want) && c.Transport == "tcp" && r.spec.PeerWrites > 0 && (r.peerErr != nil || r.peerWriteErr != nil) {
+				// finding F20 (known_findings.jsonl): the peer had written bytes the handler had not consumed when the
+				// session closed the socket; the kernel then resets the connection and the flushed tail is lost
+				return res.Failf("flush-before-close/tcp-reset-with-unread-inbound", "session %d (%+v): only a local Close ended the session, but the peer had sent %d bytes of its own: the connection was reset (peer's read: %v, peer's write: %v) and the peer received %d of the %d bytes accepted by Send", r.idx, r.spec, r.spec.PeerWrites, r.peerErr, r.peerWriteErr, len(got), len(want))
+			}
 			if !bytes.Equal(got, want) {
-				return res.Failf("flush-before-close", "session %d (%+v): only a local Close ended the session and the peer read to the end, but it received %d of the %d bytes accepted by Send", r.idx, r.spec, len(got), len(want))
+				return res.Failf("flush-before-close", "session %d (%+v): only a local Close ended the session and the peer read to the end, but it received %d of the %d bytes accepted by Send (the peer's read ended with: %v, its writes with: %v)", r.idx, r.spec, len(got), len(want), r.peerErr, r.peerWriteErr)
 			}
 		}
 	}
